@@ -97,7 +97,7 @@ func cmpSign(x int) int64 {
 }
 
 func runC20(c *Ctx) error {
-	c.Setup("Uvarint Keys Codec CorrC20", "run_case")
+	c.Setup("Uvarint Keys Codec Crc32c LogRecord CorrC20", "run_case")
 	type J = map[string]interface{}
 	for i := 0; c.nCases < c.N; i++ {
 		switch i % 13 {
@@ -174,6 +174,24 @@ func runC20(c *Ctx) error {
 			c.Case("HdrDecRT", fmt.Sprintf("(HdrDec %s (Some (%s, %s)))", B(buf), hdrTerm(k2, v2, e2, m2, u2), Zz(int64(n))), J{"buf": buf})
 			c.Oracle(k2 == kl && v2 == vl && e2 == ex && m2 == m && u2 == u && n == len(enc) && len(enc) <= 22,
 				"header-roundtrip", "header.Decode(header.Encode(h)) != h", J{"klen": kl, "vlen": vl, "ex": ex, "m": m, "u": u})
+			// the same bytes through header.DecodeFrom, the reader delivering 1, 2, 3 or all bytes per
+			// Read (a bufio.Reader at a buffer boundary delivers what it has left)
+			chunk := []int{1, 2, 3, 1000}[c.Rng.Intn(4)]
+			fb := buf
+			if c.Rng.Intn(6) == 0 {
+				fb = buf[:c.Rng.Intn(len(enc)+1)] // cut inside the header: an error class
+			}
+			k3, v3, e3, m3, u3, n3, cls := badger.VerifHeaderDecodeFrom(fb, chunk)
+			rt := "None"
+			if cls == 0 {
+				rt = fmt.Sprintf("(Some (%s, %s))", hdrTerm(k3, v3, e3, m3, u3), Zz(int64(n3)))
+			}
+			c.Case("HdrFrom", fmt.Sprintf("(HdrFrom %s %s %d)", B(fb), rt, cls), J{"buf": fb, "chunk": chunk})
+			if len(fb) == len(buf) {
+				c.Oracle(cls == 0 && k3 == kl && v3 == vl && e3 == ex && m3 == m && u3 == u && n3 == len(enc),
+					"header-roundtrip-decodefrom-short-reads", "header.DecodeFrom over a reader with short reads does not return the encoded header",
+					J{"klen": kl, "vlen": vl, "ex": ex, "m": m, "u": u, "chunk": chunk})
+			}
 		case 6: // header decode of arbitrary bytes
 			buf := c.rawBytes(26)
 			var k2, v2 uint32
